@@ -23,7 +23,7 @@ YOUR TASK: produce {n} DIFFERENT, independent changes ("mutants") to the library
 
 How to work:
 - Python to use: /venv/bin/python. Run things from the worktree root so that the worktree's pyyeti is imported: `cd {wt} && /venv/bin/python -c "import pyyeti; print(pyyeti.__file__)"` must print a path under {wt}.
-- Full test suite (about 1.5 minutes): `cd {wt} && /venv/bin/python -m pytest -q -p no:cacheprovider --timeout=900 --continue-on-collection-errors 2>&1 | tail -30`. On the unmodified code exactly 16 tests fail for environment reasons (listed in /tmp/wt/baseline_fail.txt, one test id per line) and 490 pass. With your mutant applied the set of failing tests must be exactly the same 16 (compare the `FAILED` lines with that file). You may run just the relevant test files while iterating but must run the full suite once per final mutant.
+- Full test suite (about 1.5 minutes): `cd {wt} && /venv/bin/python -m pytest -q -p no:cacheprovider --timeout=900 --continue-on-collection-errors 2>&1 | tail -30`. On the unmodified code exactly 16 tests fail for environment reasons (listed in /tmp/wt/baseline_fail.txt, one test id per line) and 490 pass. With your mutant applied the set of failing tests must be exactly the same 16 (compare the `FAILED` lines with that file). You may run just the relevant test files while iterating but must run the full suite once per final mutant. Run the suite with `OMP_NUM_THREADS=1 OPENBLAS_NUM_THREADS=1` in the environment and under `timeout 1500`; the machine is shared and heavily loaded, two tests (test_cb.py::test_cbcheck_determinate, test_fdepsd.py::test_fdepsd_absacce) are known to be flaky under load (re-run them alone), and a run that hangs in a multiprocessing pool should be killed and repeated.
 - If you change pyyeti/rainflow/c_rain.c rebuild it with `cd {wt} && /venv/bin/python setup.py build_ext --inplace`.
 - For each mutant k = 1..{n} create the directory {wt}/out/m<k>/ containing:
   * patch.diff - output of `git diff` for that mutant alone relative to HEAD (must apply with `git apply` to a clean checkout; paths relative to the repository root),
